@@ -178,6 +178,7 @@ Record wstate := {
 (* thresholds are parameters: Go uses NewLocalHeap(256), NewSymbolTableNode(32)/WriteAt(..,32,..),
    and a 255-byte header chunk which bounds len(name)+len(target) of a soft link by 244 *)
 Record cfg := { heap_cap : N; snod_cap : N; soft_max : N;
+  max_depth : N;            (* reader: maxGroupDepth, the number of objects that may be "being loaded" at once *)
   (* three candidate repairs (notes/fixes/*.patch), off in the tree as it is; the theorems hold for
      every value, the tie reads the values from the source (tools/props/c03unit.py: source_cfg) *)
   strict_names : bool;      (* linkToParent refuses empty names and names with a NUL byte *)
@@ -185,12 +186,12 @@ Record cfg := { heap_cap : N; snod_cap : N; soft_max : N;
   rc_rollback_fix : bool    (* writeV2RefCount also updates an existing RefCount message when the count is 1 *)
 }.
 (* the tree before any of the three repairs *)
-Definition base_cfg : cfg := {| heap_cap := 256; snod_cap := 32; soft_max := 244;
+Definition base_cfg : cfg := {| heap_cap := 256; snod_cap := 32; soft_max := 244; max_depth := 1024;
                                 strict_names := false; canon_group_key := false; rc_rollback_fix := false |}.
 (* /repo as it is now: the three repairs are in (4d95b56 trailing slash, and the commits "reject empty link
    names ...", "restore the stored reference count ..."); the tie does not use this definition, it reads
    the switches from the source *)
-Definition go_cfg : cfg := {| heap_cap := 256; snod_cap := 32; soft_max := 244;
+Definition go_cfg : cfg := {| heap_cap := 256; snod_cap := 32; soft_max := 244; max_depth := 1024;
                               strict_names := true; canon_group_key := true; rc_rollback_fix := true |}.
 
 (* heap-level well-formedness of a link name: non-empty, no NUL byte *)
@@ -376,37 +377,48 @@ Section Kids.
     end.
 End Kids.
 
-(* loadObject / loadModernGroup / loadChildren.  A group whose B-tree was already visited gets no
-   children (visitedBTrees is never cleared).  A soft/external link object is an object header with
-   one Link message: determineObjectType calls it a group, loadModernGroup finds a link message,
-   skips it and never looks at a symbol table, so it appears as an empty group. *)
-Fixpoint load_object (fuel : nat) (w : wstate) (vis : list N) (id : N) : option (tree * list N) :=
+(* loadModernGroup / loadChildren for one group.  A group whose B-tree was already visited gets no
+   children (visitedBTrees is never cleared). *)
+Definition load_group (rec : list N -> N -> option (tree * list N)) (w : wstate) (vis : list N) (id : N)
+  : option (tree * list N) :=
+  if nmem id vis then Some (TNode id KGroup [], vis) else
+  match alookup id (heaps w), alookup id (snods w) with
+  | Some seg, Some ents =>
+    match kids rec seg ents (vis ++ [id]) with
+    | None => None
+    | Some (ts, vis') => Some (TNode id KGroup ts, vis')
+    end
+  | _, _ => None
+  end.
+
+(* loadObject.  enterLoad first: an object that is currently being loaded (one of its own ancestors) is
+   an error, and so is nesting beyond maxGroupDepth; both errors propagate through loadChildren
+   ("child load failed") and make Open fail.  A soft/external link object is an object header with one
+   Link message: determineObjectType calls it a group, loadModernGroup finds a link message, skips it
+   and never looks at a symbol table, so it appears as an empty group.
+   anc = the objects being loaded (File.loading); the root group is loaded by loadGroup directly and
+   is not among them. *)
+Fixpoint load_object (fuel : nat) (c : cfg) (w : wstate) (anc : list N) (vis : list N) (id : N)
+  : option (tree * list N) :=
   match fuel with
   | O => None
   | S f =>
+    if nmem id anc then None else
+    if max_depth c <=? blen anc then None else
     match alookup id (objects w) with
     | None => None
     | Some o =>
       match o_kind o with
       | KData => Some (TNode id KData [], vis)
       | KSoft => Some (TNode id KGroup [], vis)
-      | KGroup =>
-        if nmem id vis then Some (TNode id KGroup [], vis) else
-        match alookup id (heaps w), alookup id (snods w) with
-        | Some seg, Some ents =>
-          match kids (load_object f w) seg ents (vis ++ [id]) with
-          | None => None
-          | Some (ts, vis') => Some (TNode id KGroup ts, vis')
-          end
-        | _, _ => None
-        end
+      | KGroup => load_group (load_object f c w (id :: anc)) w vis id
       end
     end
   end.
 
-(* fuel: nested expansions are distinct groups (guard), at most one per API call, plus one leaf *)
-Definition read_tree (w : wstate) : option tree :=
-  option_map fst (load_object (S (N.to_nat (clock w))) w [] 0).
+(* Open: the root group.  fuel: every level of nesting is a group created by its own API call *)
+Definition read_tree (c : cfg) (w : wstate) : option tree :=
+  option_map fst (load_group (load_object (N.to_nat (clock w)) c w []) w [] 0).
 
 (* ================================================================== specification *)
 (* The obvious tree: every group is an association list name -> child; children are referred to by
